@@ -483,22 +483,35 @@ func c02EngineFamily(cf *CaseFile, r *Rng, thorough bool, maxlen int) error {
 				}
 				for fl := range c02Flagsets {
 					primary := hmode == 0 && keymode == 0 && fl == 0
-					full := primary || thorough
-					vers := []int32{2}
-					if full {
-						vers = []int32{0, 1, 2, 3, -1}
+					if !thorough && ch.id == 3 {
+						continue // same script as bitcoin-v7 (checked by the chain family); engine run only in the thorough tier
 					}
-					if !thorough && !primary && ch.id == 3 {
-						continue
-					}
-					for _, seq := range c02Seqs(c02TextCsv[ch.id], full) {
-						for _, ver := range vers {
-							ml := maxlen
-							if thorough && primary && ver == 2 {
-								ml = maxlen + 1
-							}
-							jobs = append(jobs, &c02Job{w: w, flags: fl, seq: seq, ver: ver, maxlen: ml})
+					add := func(seq uint32, ver int32) {
+						ml := maxlen
+						if thorough && primary && ver == 2 {
+							ml = maxlen + 1
 						}
+						jobs = append(jobs, &c02Job{w: w, flags: fl, seq: seq, ver: ver, maxlen: ml})
+					}
+					c := c02TextCsv[ch.id]
+					switch {
+					case thorough:
+						for _, seq := range c02Seqs(c, true) {
+							for _, ver := range []int32{0, 1, 2, 3, -1} {
+								add(seq, ver)
+							}
+						}
+					case primary:
+						for _, seq := range c02Seqs(c, true) {
+							add(seq, 2)
+						}
+						for _, ver := range []int32{0, 1, 3, -1} {
+							add(c-1, ver)
+							add(c, ver)
+						}
+					default:
+						add(c-1, 2)
+						add(c, 2)
 					}
 				}
 			}
